@@ -17,7 +17,7 @@ M1 == (<<"a", "">> :> 1) @@ (<<"z", "x", "a", "">> :> 2)
 M2 == (KRoot :> 1) @@ (KEmpty :> 2) @@ (<<"x", "a", "">> :> 1) @@ (<<"y", "a", "">> :> 2)
 M3 == (<<"x", "a">> :> 1) @@ (<<"b", "">> :> 2)
 GenInitMaps == {Empty, M1, M2, M3}
-GenInitTwo == {M2, M3}
+GenInitOne == {M2}
 
 H(o, k, sp, v) == hist' = Append(hist, [op |-> o, k |-> k, sp |-> sp, v |-> v])
 Pairs(m) == {<<k, m[k]>> : k \in DOMAIN m}
